@@ -141,6 +141,8 @@ def _check_case(intervals, probes):
         hits = [mapping[(s, e)] for s, e in intervals if s <= k <= e]
         want = ("ok", hits[0]) if hits else ("exc", "KeyError")
         for conv in (Decimal, Fraction):
+            if isinstance(k, (Decimal, Fraction)):
+                continue        # (already a probe of another exact type; Decimal(Fraction) does not exist)
             kk = conv(k)
             g, gin = outcome(lambda: m[kk]), outcome(lambda: kk in m)
             if g != want or gin != ("ok", bool(hits)):
@@ -195,7 +197,8 @@ def cases(tier, seed):
     ivs = [(s, e) for s in pts for e in pts]          # includes inverted and degenerate
     maxk = 4 if tier == "thorough" else 3
     probes = [x / 2 for x in range(-2, 11)]
-    yield [], probes
+    for _ in range(4):
+        yield [], probes        # the empty map, in four consecutive shards (one of them runs under -O, one with DEBUG logging)
     for k in range(1, maxk + 1):
         for combo in itertools.permutations(ivs, k):
             yield list(combo), probes
@@ -205,6 +208,19 @@ def cases(tier, seed):
     for ivs in ([(0, 1), (5, inf)], [(-inf, -3), (0, 0)], [(-inf, inf)], [(-inf, 0), (0.5, inf)], [(1, inf), (-inf, 1)],
                 [(inf, inf), (0, 1)], [(-inf, -inf), (3, 4)]):
         yield list(ivs), [-10, -3, -1, 0, 0.25, 0.5, 1, 2, 5, 1e300]
+    # two intervals that share an infinite end point (invalid), ints beyond 2**53 next to floats one unit away (valid: int / float
+    # comparisons are exact), interval ends of other exact number types next to floats
+    from decimal import Decimal
+    from fractions import Fraction
+    p53 = 2 ** 53
+    for ivs in ([(0, inf), (inf, inf)], [(-inf, -inf), (-inf, 0)], [(5, inf), (7, inf)], [(-inf, 3), (-inf, 1)],
+                [(p53 + 1, p53 + 1), (float(p53), float(p53))], [(float(p53 + 2), float(p53 + 4)), (p53 + 1, p53 + 1), (p53 + 5, p53 + 7)],
+                [(-p53 - 1, -p53 - 1), (-float(p53), -float(p53) + 1)], [(10 ** 17 + 1, 10 ** 17 + 3), (1e17 + 16, 1e17 + 32), (1e17, 1e17)],
+                [(Decimal("0.5"), Decimal("1.5")), (2.0, 3.0)], [(Fraction(1, 3), Fraction(2, 3)), (0.75, 1.0), (0, Fraction(1, 4))],
+                [(Decimal(2), Decimal(3)), (3.0, 4.0)], [(Fraction(1, 2), 1), (0.5, 0.5)]):
+        ends = sorted({x for iv in ivs for x in iv})
+        fin = [e for e in ends if e not in (inf, -inf)]
+        yield list(ivs), sorted(set(ends + [e + 1 for e in fin] + [e - 1 for e in fin] + [0, 0.5]))
     big = 10 ** 400
     for ivs in ([(big, big + 5), (0, 1)], [(-big, -big + 2), (big, big)], [(2 ** 1024, 2 ** 1024 + 1), (2 ** 1023, 2 ** 1023 + 1)]):
         ends = sorted({x for iv in ivs for x in iv})
